@@ -17,6 +17,7 @@ RULE = ("generated (q, u, v): q = rational/float value x product of 1-3 units of
         "inequivalent targets, convert_to_float only for dimensionless, evaluate_expression value-preserving; Celsius/kelvin "
         "helpers on random temperatures incl. 0 K and many decimals; prefixes table vs SI brochure (exhaustive). "
         "non-trivial = source and target spelled differently; distinct = distinct case description.")
+RULE = RULE + " Also: expressions that contain plain SymPy units and constants (evaluate_expression); units of the non-SI base dimension 'information' (own values: byte = 8 bit, kibibyte = 8192 bit) convertible only among themselves."
 ASSUMPTIONS = ["vf/units_ref.py table (typed from the SI brochure) defines the SI value and exponent vector of every unit"]
 N = {"quick": 2400, "thorough": 32000}
 MIN_REACH = {"quick": {"definition": 1500, "composition": 1200, "si": 1500, "refusal": 400, "evaluate_expression": 300,
